@@ -40,10 +40,34 @@ FAILS = {
     "conv-int": (["bb = B9999999999", "v = bb.to_int()"], "conversion", "cannot be made into"),
     "substring": (["ss = \"abc\"", "v = ss.substring(2, 8 + a)"], "range", None),
     "map-get": (["mm = map[str, int]", "v = get mm[\"k\"]"], "nil", "unwrap of `nil`"),
+    # the same arithmetic failures with an operand that is not a plain int on the stack: a PRESENT optional handed out by a built-in (boxed), a reference
+    # into a list / an object / a map, and the op-assignment forms
+    "overflow-add-boxed": (["v = \"2147483647\".parse_int() + a"], "overflow", None),
+    "overflow-add-boxed-right": (["v = a + \"2147483647\".parse_int()"], "overflow", None),
+    "overflow-sub-boxed": (["lo = 0 - 2147483647", "v = lo - \"2\".parse_int() * a"], "overflow", None),
+    "overflow-mul-boxed": (["v = \"65536\".parse_int() * 65536 * a"], "overflow", None),
+    "overflow-add-boxed-index-of": (["hy: [int...] = [5, 6]", "big = 2147483647", "v = big + hy.index_of(6)"], "overflow", None),
+    "overflow-add-bigint-boxed": (["v = \"170141183460469231731687303715884105727\".parse_bigint() + a"], "overflow", None),
+    "overflow-add-byte-boxed": (["v = \"0b11111111\".parse_byte() + 0b1"], "overflow", None),
+    "overflow-add-elem": (["le: [int...] = [2147483647]", "v = le[0] + a"], "overflow", None),
+    "overflow-add-field": (["ok = Kf()", "ok.f = 2147483647", "v = ok.f + a"], "overflow", None),
+    "overflow-add-map-entry": (["mm = map[str, int]", "mm[\"k\"] = 2147483647", "v = (get mm[\"k\"]) + a"], "overflow", None),
+    "overflow-neg-elem": (["le: [int...] = [0 - 2147483647]", "le[0] -= a", "v = -le[0]"], "overflow", None),
+    "overflow-opassign": (["big = 2147483647", "big += a"], "overflow", None),
+    "overflow-opassign-elem": (["le: [int...] = [2147483647]", "le[0] += a"], "overflow", None),
+    "overflow-opassign-field": (["ok = Kf()", "ok.f = 2147483647", "ok.f += a"], "overflow", None),
+    "overflow-opassign-mul-map-entry": (["mm = map[str, int]", "mm[\"k\"] = 65536", "mm[\"k\"] *= 65536 * a"], "overflow", None),
+    "div-int-boxed": (["v = 10 / \"0\".parse_int()"], "zero-divisor", "/ by 0"),
+    "div-int-elem": (["lz: [int...] = [0]", "v = 10 / lz[0]"], "zero-divisor", "/ by 0"),
+    "mod-int-field": (["ok = Kf()", "ok.f = 0", "v = 10 % ok.f"], "zero-divisor", "% by 0"),
+    "div-opassign-elem": (["lz: [int...] = [10]", "z = a - a", "lz[0] /= z"], "zero-divisor", "/ by 0"),
+    "shift-range-boxed": (["v = a << \"40\".parse_int()"], "overflow", None),
+    "conv-byte-boxed": (["v = \"300\".parse_int().to_byte()"], "conversion", None),
 }
+CARRIED_FAILS = [k for k in FAILS if any(t in k for t in ("-boxed", "-elem", "-field", "-map-entry", "-opassign"))]
 # failure kinds raised by a built-in method -> a fragment of that built-in's name in the `<native code>#...` trace line
 NATIVE_OF = {"remove": "Remove", "remove-at-len": "Remove", "substring": "Substring", "conv-byte": "ToByte", "conv-int": "ToInt"}
-QUICK_FAILS = ["assert", "get-nil", "index", "index-at-len", "set-at-len", "div-int", "div-byte", "overflow-add", "conv-byte", "remove", "nil-field", "div-float"]
+QUICK_FAILS = CARRIED_FAILS + ["assert", "get-nil", "index", "index-at-len", "set-at-len", "div-int", "div-byte", "overflow-add", "conv-byte", "remove", "nil-field", "div-float"]
 
 
 def chain_ok(chain):
@@ -174,7 +198,7 @@ def build(chain, fk, pos):
         exp.append(f"enter {i}")
     files = {"x.ms": "\n".join(main) + "\n"}
     if helper:
-        if chain and chain[-1] == "modfn" and fk == "nil-field":
+        if chain and chain[-1] == "modfn" and "Kf" in " ".join(FAILS[fk][0]):
             helper = ["class Kf {", "\tf: int", "\tconstructor(self) {", "\t\tself.f = 1", "\t}", "}"] + helper
         files["helper.ms"] = "\n".join(helper) + "\n"
     return files, exp, frames
@@ -210,7 +234,7 @@ class C17(Check):
     chunksize = 16
 
     def layers(self, tier):
-        L = 3 if tier == "quick" else 4
+        L = 4
         fails = QUICK_FAILS if tier == "quick" else list(FAILS)
 
         def chains(lo, hi):
@@ -221,7 +245,7 @@ class C17(Check):
         l0 = [(ch, fk, pos) for ch in chains(0, 1) for fk in FAILS for pos in POSITIONS]
         l1 = [(ch, fk, "plain") for ch in chains(2, 2) for fk in fails] + \
              [(ch, "assert", pos) for ch in chains(2, 2) for pos in POSITIONS[1:]]
-        l2 = ((ch, fk, "if") for ch in chains(3, L) for fk in (fails if tier == "thorough" else ["assert", "div-int", "index", "overflow-add"]))
+        l2 = ((ch, fk, "if") for ch in chains(3, L) for fk in (fails if tier == "thorough" else ["assert", "div-int", "index", "overflow-add-boxed"]))
         ctxs = ["print", "list", "cond", "while-cond", "assert", "interpolated"]
         l0b = [(ch, fk, "plain@" + cx) for ch in chains(0, 1) for fk in FAILS if FAILS[fk][0][-1].startswith("v = ") for cx in ctxs]
         l0h = [(ch, fk, pos + "+hist") for ch in chains(0, 2) for fk in ("assert", "index", "div-int") for pos in POSITIONS]
